@@ -256,3 +256,26 @@ def panic_purity(ctx, prog, floor=2):
         errpure.check(ctx, R, "%s: the receiver is untouched when the function panics on its arguments (validate before store)" % f.short, f, {1}, pb,
                       what="the receiver")
     ctx.floor(R, n, floor, "safe `&mut self` functions with their own panic sites")
+
+
+def element_range_asserts(ctx, prog, floor=5):
+    """the checked forms of the position-array operations refuse a symbol outside the alphabet: every release-live `assert!` over the
+    elements of a slice parameter is `all(|x| x < ALPHABET_SIZE)` - `<`, against 64 (a `<=` lets 64 through to an unchecked table index)"""
+    n = 0
+    for f in entries(prog):
+        if "BlockHashPositionArrayImpl" not in f.path:
+            continue
+        sy = Sym(f)
+        for kind, e, truth, sp in guards_of(f, sy):
+            if kind != "live" or not truth:
+                continue
+            e = strip(e)
+            if not (e[0] == "call" and e[1].split("::")[-1] == "all" and len(e[2]) == 2):
+                continue
+            n += 1
+            c = closure_canon(prog, e)
+            m = re.search(r"closure\{(.*)\}\)$", c)
+            body = m.group(1) if m else c
+            ok = re.match(r"^Lt\(\(?param:\w+( as usize\))?,(?:[\w:]*=)?64\)$", body) is not None
+            ctx.ob(R, "%s: the element assert is `all(|x| x < 64)`" % f.short, ok, "closure body: %s" % body[:100], f.loc(sp))
+    ctx.floor(R, n, floor, "element range asserts in the checked position-array forms")
